@@ -60,6 +60,7 @@ use markup5ever::ExpandedName;
 use markup5ever::QualName;
 use xml5ever::interface::ElemName;
 use xml5ever::local_name;
+use xml5ever::ns;
 
 /// The different kinds of nodes in the DOM.
 #[derive(Debug, Clone)]
@@ -135,7 +136,12 @@ impl Node {
         // Step 2. For each ancestor of option's ancestors, in reverse tree order:
         let mut current = self.parent().and_then(|parent| parent.upgrade())?;
         loop {
-            if let NodeData::Element { name, .. } = &current.data {
+            // Only HTML elements are datalist, hr, option, optgroup or select elements.
+            let html_element_name = match &current.data {
+                NodeData::Element { name, .. } if name.ns == ns!(html) => Some(name),
+                _ => None,
+            };
+            if let Some(name) = html_element_name {
                 // Step 2.1 If ancestor is a datalist, hr, or option element, then return null.
                 if matches!(
                     name.local_name(),
@@ -199,7 +205,7 @@ impl Node {
         let mut selectedcontent = None;
         while let Some(node) = remaining.pop() {
             if let NodeData::Element { name, .. } = &node.data {
-                if name.local_name() == &local_name!("selectedcontent") {
+                if name.ns == ns!(html) && name.local_name() == &local_name!("selectedcontent") {
                     selectedcontent = Some(node);
                     break;
                 }
